@@ -189,6 +189,13 @@ impl ServerState {
                 match msg {
                     TaskMessage::CompilationContext(ctx) => {
                         verif_point!("w_recv");
+                        // Any retrigger signal raised so far was meant to cancel a compilation that
+                        // is superseded by this request. Clear it now rather than after compiling:
+                        // a handler may observe `is_compiling == true` while the previous
+                        // compilation is finishing and raise the flag only afterwards, which would
+                        // otherwise cancel the compilation of its own, most recent, request.
+                        verif_point!("w_rt_clear");
+                        retrigger_compilation.store(false, Ordering::SeqCst);
                         let uri = &ctx.uri;
                         let path = uri.to_file_path().unwrap();
                         let mut engines_clone = ctx.engines.read().clone();
@@ -266,11 +273,9 @@ impl ServerState {
                             }
                         }
 
-                        // Reset the flags to false
+                        // Reset the is_compiling flag
                         verif_point!("w_ic_false");
                         is_compiling.store(false, Ordering::SeqCst);
-                        verif_point!("w_rt_clear");
-                        retrigger_compilation.store(false, Ordering::SeqCst);
 
                         // Make sure there isn't any pending compilation work
                         verif_point!("w_is_empty");
@@ -321,6 +326,13 @@ impl ServerState {
     pub async fn wait_for_parsing(&self) {
         verif_point!("p_enter");
         loop {
+            // Create the `Notified` future before checking the flags: it observes every
+            // `notify_waiters()` call made from this point on, even though it has not been polled
+            // yet. If it were created after the checks, a notification sent by the compilation
+            // thread in between would be lost and this task would wait forever.
+            verif_point!("p_snap");
+            let notified = self.finished_compilation.notified();
+
             // Check both the is_compiling flag and the last_compilation_state.
             // Wait if is_compiling is true or if the last_compilation_state is Uninitialized.
             verif_point!("p_ic_load");
@@ -335,9 +347,8 @@ impl ServerState {
                 }
             }
             // We are still compiling, lets wait to be notified.
-            verif_point!("p_snap");
             verif_point!("p_await");
-            self.finished_compilation.notified().await;
+            notified.await;
             verif_point!("p_wake");
         }
     }
